@@ -24,6 +24,7 @@ import (
 	"errors"
 	"net/http"
 	"net/http/httputil"
+	"strconv"
 	"strings"
 	"time"
 
@@ -85,6 +86,12 @@ func (rt *RoundTripper) cacheResponse(req *http.Request, resp *http.Response) {
 	}
 
 	ttl := time.Until(expires)
+
+	// RFC 7234, section 4.2.3: the time the response spent in other caches counts against its freshness lifetime
+	if age, err := strconv.Atoi(strings.TrimSpace(resp.Header.Get("Age"))); err == nil && age > 0 {
+		ttl -= time.Duration(age) * time.Second
+	}
+
 	if ttl <= 0 {
 		// zero or negative freshness lifetime: must not be stored (and ttl <= 0 means "forever" for the in-memory cache)
 		return
